@@ -291,8 +291,12 @@ private:
     {
         byte_vector_t row( this->_io_dev.get_tile_size() );
 
-        using x_iterator = typename detail::my_interleaved_pixel_iterator_type_from_pixel_reference<typename View::reference>::type;
-        x_iterator row_it = x_iterator( &(*row.begin()));
+        // as in write_data: the samples go into the file in the order of the color space,
+        // whatever the channel order of the view is
+        using x_iterator = pixel< typename channel_type< View >::type
+                                , layout< typename color_space_type< View >::type >
+                                >*;
+        x_iterator row_it = reinterpret_cast< x_iterator >( &(*row.begin()));
 
         internal_write_tiled_data(view, tw, th, row, row_it);
     }
